@@ -150,6 +150,7 @@ class World:
         self.violation = None
         self._api_cache: dict = {}
         self.fault_free = True
+        self.sigs: set = set()
 
     # ------------------------------------------------------------------ utilities
     def count(self, k: str, n: int = 1):
@@ -647,6 +648,13 @@ class World:
 
     def _probes(self, op, pre, post, exps, code, ok, why, fired):
         o = op.get("opts", {})
+        # distinct non-trivial case = (command, option tuple, fault that fired, formatter
+        # environment, outcome class, whether an output pre-existed)
+        nondefault = any(o.get(k) for k in ("scheme", "stiff", "delta", "remove_unused", "format", "backend", "to", "outname", "config", "jax"))
+        if (why == "success" and nondefault) or fired:
+            pre_out = any(r.endswith((".py", ".c", ".h")) for r in pre if not r.endswith("/"))
+            self.sigs.add(obs.sha(obs.canon([op["cmd"], sorted((k, v) for k, v in o.items() if k != "verbose"), fired,
+                                            self.stub_kind, self.stub_mode, why, pre_out, op.get("cwd", ".")]))[:16])
         if why == "success":
             self.count("outcome:success")
             e = next((x for x in exps if x[0] == "success" and post.get(x[1]) == x[2]), None)
